@@ -874,6 +874,134 @@ def sel_model_text(cases):
     return "\n".join(lines) + ("\n" if lines else "")
 
 
+# ------------------------------------------------------------------ inlineTagFilter itself (package query)
+def gen_inl_case(rng):
+    ids = list(range(6))
+    names = ["tag/a", "service/b", "tag/d"][:rng.choice([1, 2, 2, 3, 3])]
+    tags = []
+    for nme in names:
+        r = rng.random()
+        if r < 0.08:
+            e = ("and", [("num", "sport", [(80,)]), ("num", "sport", [(81,)])], False)      # can never match
+        else:
+            k = rng.choice([1, 2, 2, 3, 3])
+            atoms = [gen_simple_atom(rng, ids) for _ in range(k)]
+            if rng.random() < 0.25:
+                atoms[0] = ("and", [atoms[0], gen_simple_atom(rng, ids)], False)
+            e = atoms[0] if k == 1 else ("or", atoms)
+        tags.append({"name": nme, "def": text_of(e), "uncertain": rng.random() < 0.85})
+    refs = [("tag",) + tuple(t.split("/")) for t in rng.sample(names, rng.randrange(1, len(names) + 1))]
+    refs = [("not", t) if rng.random() < 0.3 else t for t in refs]
+    refs += [gen_simple_atom(rng, ids) for _ in range(rng.choice([0, 0, 1]))]
+    rng.shuffle(refs)
+    e = ("and", refs, False) if len(refs) > 1 else refs[0]
+    if rng.random() < 0.15:
+        e = ("or", [e, ("and", [("tag",) + tuple(rng.choice(names).split("/")), gen_simple_atom(rng, ids)], False)])
+    return {"tags": tags, "q": text_of(e)}
+
+
+def inl_canon_cond(c):
+    f = c.split("\x1f")
+    return "\x1f".join(f[:3]) if f[0] == "T" else c
+
+
+def inl_canon(conjs):
+    return sorted(tuple(sorted(inl_canon_cond(c) for c in cj)) for cj in conjs)
+
+
+def inl_parse_conj(s):
+    return [] if s == "" else s.split("\x1d")
+
+
+def inl_oracle(tags, conj):
+    """The specification of the step: every tag condition that accepts exactly one of the two undecided states, on a
+    tag with undecided streams, splits the conjunct into: decided streams by their bit; undecided streams together
+    with each disjunct of the (for a negated reference: inverted) definition -- the full cross product."""
+    cur = [[]]
+    for c in conj:
+        f = c.split("\x1f")
+        if f[0] == "T" and f[1] in tags and tags[f[1]]["unc"] and (int(f[2]) & 12) in (4, 8):
+            a = int(f[2])
+            t = tags[f[1]]
+            defs = t["d"] if a & 4 else (t["i"] if t["d"] else [[]])
+            certain = "\x1f".join(["T", f[1], str(a & 3)])
+            unc = "\x1f".join(["T", f[1], "12"])
+            cur = [x + [certain] for x in cur] + [x + [unc] + d for d in defs for x in cur]
+        else:
+            cur = [x + [c] for x in cur]
+    return cur
+
+
+def run_inl(cases, exe):
+    """-> (list of (case index, conjunct index, go, model, oracle) that disagree, number of blocks, note)"""
+    d = os.path.join(BUILD, "run", "c02", str(os.getpid()))
+    os.makedirs(d, exist_ok=True)
+    cf, gout, mout = (os.path.join(d, x) for x in ("inl_cases.json", "inl_go.out", "inl_model.out"))
+    json.dump({"inl": cases}, open(cf, "w"))
+    for p in (gout, mout):
+        if os.path.exists(p):
+            os.remove(p)
+    ov = go_overlay({"internal/query/zz_verif_c02q_test.go": os.path.join(ROOT, "harness/c02/zz_verif_c02q_test.go")}, "c02q_%d" % os.getpid())
+    rc, out, _ = go_test("./internal/query/", ov, "^TestVerifC02Q$", {"VERIF_CASES": cf, "VERIF_OUT": gout, "TZ": "UTC"}, timeout=600)
+    note = "" if rc == 0 else "go harness (package query) rc=%d: %s" % (rc, out[-1200:])
+    try:
+        os.remove(ov)
+    except OSError:
+        pass
+    blocks = {}
+    if os.path.exists(gout):
+        lines = open(gout).read().split("\n")
+        i = 0
+        while i < len(lines):
+            t = lines[i].split("\t")
+            if t[0] in ("INLERR", "INLPANIC"):
+                note += " " + lines[i][:300]
+            if t[0] != "INL":
+                i += 1
+                continue
+            key = (int(t[1]), int(t[2]))
+            i += 1
+            k = int(lines[i].split("\t")[1])
+            i += 1
+            tags = {}
+            for _ in range(k):
+                tt = lines[i].split("\t")
+                i += 1
+                nd, ni = int(tt[3]), int(tt[4])
+                dd = [inl_parse_conj((lines[i + j].split("\t") + [""])[1]) for j in range(nd)]
+                i += nd
+                ii = [inl_parse_conj((lines[i + j].split("\t") + [""])[1]) for j in range(ni)]
+                i += ni
+                tags[tt[1]] = {"unc": tt[2] == "1", "d": dd, "i": ii}
+            conj = inl_parse_conj((lines[i].split("\t") + [""])[1])
+            i += 1
+            n = int(lines[i].split("\t")[1])
+            i += 1
+            outc = [inl_parse_conj((lines[i + j].split("\t") + [""])[1]) for j in range(n)]
+            i += n
+            blocks[key] = {"tags": tags, "in": conj, "go": inl_canon(outc), "spec": inl_canon(inl_oracle(tags, conj))}
+    model = {}
+    if exe and os.path.exists(gout):
+        rc2, out2, _ = run([exe, "--inl", gout, mout], timeout=600)
+        if rc2 != 0:
+            note += " model driver (--inl) rc=%d: %s" % (rc2, out2[-400:])
+        if os.path.exists(mout):
+            for line in open(mout):
+                t = line.rstrip("\n").split("\t")
+                if t[0] == "I":
+                    body = t[3] if len(t) > 3 else ""
+                    model[(int(t[1]), int(t[2]))] = None if body == "NONE" else sorted(
+                        tuple(c for c in cj.split("\x1d") if c != "") for cj in body.split("\x1c"))
+    bad = []
+    for key, b in sorted(blocks.items()):
+        m = model.get(key)
+        if b["go"] != b["spec"]:
+            bad.append(("impl", key, b, m))
+        elif exe and m != b["spec"]:
+            bad.append(("model", key, b, m))
+    return bad, len(blocks), note
+
+
 # ------------------------------------------------------------------ special cases, findings
 def tagdelay_case():
     """Known finding tag-inline-reftime.  An undecided tag whose definition has an absolute time bound is
@@ -1023,8 +1151,57 @@ def minimise(pop, sr, kind, budget=120):
 
 
 # ------------------------------------------------------------------ main
+def gen_simple_atom(rng, ids):
+    r = rng.random()
+    if r < 0.3:
+        return ("num", "cport", [(rng.choice(CPORTS),)])
+    if r < 0.6:
+        return ("num", "sport", [(rng.choice(SPORTS),)])
+    if r < 0.8:
+        return ("num", "id", [(rng.choice(ids),)])
+    if r < 0.9:
+        return ("num", "cbytes", [(rng.choice(NBYTES), None)])
+    return ("proto", [rng.choice(["tcp", "udp"])])
+
+
+def gen_inlining_population(rng, name, nsearch):
+    """The cross product of definition inlining: 2-3 tags, every one undecided for most streams, every definition
+    an OR of 1-3 disjuncts; searches are conjunctions of 2-3 (possibly negated) tag references, so that every
+    (copy of the conjunct, disjunct of the definition) combination decides some stream."""
+    pop = gen_population(rng, name)
+    while not 6 <= len(visible_of(pop)) <= 30:
+        pop = gen_population(rng, name)
+    ids = sorted(visible_of(pop))
+    names = ["tag/a", "service/b", "tag/d"][:rng.choice([2, 3, 3])]
+    tags, exprs = [], {}
+    for nme in names:
+        k = rng.choice([1, 2, 2, 3])
+        atoms = [gen_simple_atom(rng, ids) for _ in range(k)]
+        e = atoms[0] if k == 1 else ("or", atoms)
+        exprs[nme] = e
+        state = {str(sid): (0 if rng.random() < 0.2 else 1 + (rng.random() < 0.5)) for sid in ids}
+        tags.append({"name": nme, "def": text_of(e), "expr": e, "state": state})
+    pop["tags"] = tags
+    finish_tags(pop)
+    searches = []
+    for _ in range(nsearch):
+        refs = [("tag",) + tuple(t.split("/")) for t in rng.sample(names, rng.randrange(2, len(names) + 1))]
+        refs = [("not", t) if rng.random() < 0.3 else t for t in refs]
+        if rng.random() < 0.3:
+            refs.append(gen_simple_atom(rng, ids))
+        e = ("and", refs, False)
+        if rng.random() < 0.15:
+            e = ("or", [e, gen_simple_atom(rng, ids)])
+        searches.append({"expr": e, "q": text_of(e), "sort": [["id", 0]] if rng.random() < 0.7 else [],
+                         "limit": rng.choice([0, 0, 100, 2]), "skip": 0, "ids": None})
+    pop["searches"] = searches
+    return pop
+
+
 def gen_cases(rng, npops, nsearch):
     pops = []
+    for i in range(max(1, npops // 8)):
+        pops.append(gen_inlining_population(rng, "inl%d" % i, nsearch))
     for i in range(npops):
         pop = gen_population(rng, "g%d" % i)
         truth, exprs = gen_tags(rng, pop)
@@ -1040,7 +1217,7 @@ def public(pop):
 
 def load_case(path):
     obj = json.load(open(path))
-    if "sel" in obj or "num" in obj:
+    if "sel" in obj or "num" in obj or "inl" in obj:
         return {"name": "sel", "files": [], "tags": [], "searches": [], "_truth": {}}
     pop = obj["pop"]
     finish_tags(pop)
@@ -1192,7 +1369,7 @@ def main(tier, seed, replay=None):
                         model_bad.append((pop, sr, ("missing", "the model driver printed nothing for this search"), None, res))
         if failures or model_bad or note or sel_bad or num_bad:
             break
-    if replay:
+    if replay and pops and pops[0]["searches"]:
         pop, sr = pops[0], pops[0]["searches"][0]
         print("query:", sr["q"], "sort:", sr["sort"], "limit:", sr["limit"], "skip:", sr["skip"], "ids:", sr["ids"])
         print("spec  :", spec(pop, pop["_truth"], sr))
@@ -1223,6 +1400,27 @@ def main(tier, seed, replay=None):
             obj["explained_by"] = "identical to the faithful model of the unpatched searchStreams (fall-through after the sorted full scan / early exit with secondary sort keys): fixes/C02-*.patch not applied to this tree"
         violation(PROP, obj)
         nviol += 1
+    # ---- inlineTagFilter itself, three ways (real unexported function, extracted inline_conj_with, cross product)
+    if not replay or "inl" in json.load(open(replay)):
+        inl_cases = [json.load(open(replay))["inl"]] if replay else [gen_inl_case(rng) for _ in range(250 if tier == "quick" else 5000)]
+        inl_bad, nblocks, inote = run_inl(inl_cases, exe)
+        stats["inlining_conjuncts"] = nblocks
+        if replay:
+            print("inlining case:", inl_cases[0], "disagreements:", [(w, k, b["go"], b["spec"], m) for w, k, b, m in inl_bad])
+        for who, key, b, m in inl_bad[:1]:
+            obj = {"property": PROP, "kind": "inline-tag-filter", "inl": inl_cases[key[0]], "conjunct": b["in"],
+                   "impl": b["go"], "spec": b["spec"], "model": m,
+                   "why": "Conditions.inlineTagFilter: the set of conjuncts differs from the cross product (decided bit | undecided x every disjunct of the definition) over all tag references",
+                   "replay_cmd": "bin/check C02 --replay <this file>"}
+            if who == "impl":
+                violation(PROP, obj)
+            else:
+                obj["broken"] = "correspondence: the extracted inline_conj_with (theories/Search.v) disagrees with the cross-product oracle although the implementation agrees"
+                violation(PROP, obj, no_input=True)
+            nviol += 1
+        if inote and not inl_bad and nviol == 0:
+            violation(PROP, {"property": PROP, "broken": "inlining harness (package query) could not be built/run against this tree", "note": inote}, no_input=True)
+            nviol += 1
     for who, c, want, got_i, got_m in num_bad[:1]:
         obj = {"property": PROP, "kind": "subquery-relation-filter", "num": c, "spec": want, "impl": got_i, "model": got_m,
                "why": "number/time relation to sub-queries: answer or remaining combinations differ from 'n + own + sum of factor*value >= 0'",
